@@ -1,6 +1,7 @@
 package main
 
 import (
+	"errors"
 	"encoding/base64"
 	"encoding/binary"
 	"encoding/json"
@@ -10,7 +11,6 @@ import (
 	"os"
 	"sort"
 	"strings"
-	"sync"
 	"time"
 
 	"github.com/lab5e/lospan/pkg/events/gwevents"
@@ -24,38 +24,36 @@ import (
 // gwWorld is a real GenericPacketForwarder on a loopback UDP port, with the harness as gateways
 // (sockets) and as the consumer of Output().
 type gwWorld struct {
-	fwd     *gateway.GenericPacketForwarder
-	store   *storage.Storage
-	tmpdir  string
-	port    int
-	socks   []*net.UDPConn
-	hosts   []string
-	barrier *net.UDPConn
-	mu      sync.Mutex
-	fwded   []server.GatewayPacket
-	rcvd    []string
-	lastRTT time.Duration
-	btoken  uint16
+	fwd    *gateway.GenericPacketForwarder
+	store  *storage.Storage
+	tmpdir string
+	port   int
+	socks  []*net.UDPConn
+	hosts  []string
+	btoken uint16
+	inbox  []chan []byte // what each gateway socket received, in order
+	stash  []string      // datagrams seen while waiting for the barriers
+	stashF []server.GatewayPacket
 }
 
-func freeUDPPort() int {
-	c, err := net.ListenUDP("udp", &net.UDPAddr{IP: net.IPv4(127, 0, 0, 1), Port: 0})
-	if err != nil {
-		fmt.Fprintln(os.Stderr, err)
-		os.Exit(3)
-	}
-	p := c.LocalAddr().(*net.UDPAddr).Port
-	c.Close()
-	return p
+// Ports for the forwarder are taken from below the kernel's ephemeral range, spread by process id, so that neither the
+// gateway sockets of this process nor those of a harness running at the same time are ever given the port between its
+// choice and the forwarder's bind.
+var gwPortSeq = os.Getpid() * 131
+
+func nextGwPort() int {
+	gwPortSeq += 7
+	return 12000 + gwPortSeq%18000
 }
 
-// the forwarder binds a port chosen a moment earlier; if another process took it meanwhile, try again
+var barrierEUI = protocol.EUIFromInt64(-2) // ff-ff-ff-ff-ff-ff-ff-fe
+
+// the forwarder binds the port itself; if it cannot (taken by a harness running at the same time), the next port is tried
 func newGwWorld(noChecks bool, nsocks int) *gwWorld {
-	for attempt := 0; attempt < 8; attempt++ {
+	for attempt := 0; attempt < 40; attempt++ {
 		if w := tryGwWorld(noChecks, nsocks); w != nil {
 			return w
 		}
-		time.Sleep(50 * time.Millisecond)
 	}
 	fmt.Fprintln(os.Stderr, "forwarder did not start")
 	os.Exit(3)
@@ -72,111 +70,134 @@ func tryGwWorld(noChecks bool, nsocks int) *gwWorld {
 	gwRouter := server.NewEventRouter[protocol.EUI, gwevents.GwEvent](16)
 	cfg := server.Parameters{DisableGatewayChecks: noChecks}
 	ctx := &server.Context{Storage: st, Config: &cfg, GwEventRouter: &gwRouter}
-	w := &gwWorld{store: st, tmpdir: dir, port: freeUDPPort()}
+	w := &gwWorld{store: st, tmpdir: dir, port: nextGwPort()}
 	w.fwd = gateway.NewGenericPacketForwarder(w.port, st, ctx)
 	go w.fwd.Start()
-	go func() {
-		for p := range w.fwd.Output() {
-			w.mu.Lock()
-			w.fwded = append(w.fwded, p)
-			w.mu.Unlock()
-		}
-	}()
-	mk := func() *net.UDPConn {
-		c, err := net.ListenUDP("udp", &net.UDPAddr{IP: net.IPv4(127, 0, 0, 1), Port: 0})
-		if err != nil {
-			fmt.Fprintln(os.Stderr, err)
-			os.Exit(3)
-		}
-		return c
-	}
+	// Gateway sockets are connected to the forwarder's address: the kernel hands them only what comes from that
+	// address and port - not a late PULL_RESP of an earlier forwarder to a port number that was handed out again, nor
+	// datagrams of a harness running at the same time.
 	for i := 0; i < nsocks; i++ {
-		c := mk()
 		host := "127.0.0.1"
+		var c *net.UDPConn
 		if i == nsocks-1 {
 			// the last gateway socket sends from the IPv6 loopback address when there is one
-			if c6, err := net.ListenUDP("udp", &net.UDPAddr{IP: net.ParseIP("::1"), Port: 0}); err == nil {
-				c.Close()
+			if c6, err := net.DialUDP("udp", nil, &net.UDPAddr{IP: net.ParseIP("::1"), Port: w.port}); err == nil {
 				c, host = c6, "::1"
 			}
 		}
+		if c == nil {
+			c4, err := net.DialUDP("udp", &net.UDPAddr{IP: net.IPv4(127, 0, 0, 1), Port: 0}, &net.UDPAddr{IP: net.IPv4(127, 0, 0, 1), Port: w.port})
+			if err != nil {
+				fmt.Fprintln(os.Stderr, err)
+				os.Exit(3)
+			}
+			c = c4
+		}
 		w.hosts = append(w.hosts, host)
 		w.socks = append(w.socks, c)
-		// one reader per socket: whatever arrives is recorded at once
-		go func(i int, c *net.UDPConn) {
+		// one reader per socket: whatever arrives is passed on in order
+		ch := make(chan []byte, 4096)
+		w.inbox = append(w.inbox, ch)
+		go func(c *net.UDPConn, ch chan []byte) {
 			buf := make([]byte, 65536)
 			for {
-				n, _, err := c.ReadFromUDP(buf)
+				n, err := c.Read(buf)
 				if err != nil {
-					return
+					if errors.Is(err, net.ErrClosed) {
+						return
+					}
+					// "connection refused" while the forwarder is not listening yet
+					time.Sleep(time.Millisecond)
+					continue
 				}
-				s := fmt.Sprintf("%d:%s", i, renderDatagram(buf[:n]))
-				w.mu.Lock()
-				w.rcvd = append(w.rcvd, s)
-				w.mu.Unlock()
+				ch <- append([]byte{}, buf[:n]...)
 			}
-		}(i, c)
+		}(c, ch)
 	}
-	w.barrier = mk()
-	// wait until the forwarder listens
-	for i := 0; i < 60; i++ {
-		if w.sync() {
-			return w
+	// Wait until the forwarder listens - and make sure it is THIS forwarder that answers (a harness running at the same
+	// time may have bound the port first, in which case ours could not): our forwarder reports a keep-alive for the
+	// barrier's EUI on our own event router.
+	alive := gwRouter.Subscribe(barrierEUI)
+	ok := w.sync()
+	mine := false
+	if ok {
+		select {
+		case <-alive:
+			mine = true
+		case <-time.After(2 * time.Second):
 		}
-		time.Sleep(5 * time.Millisecond)
 	}
-	w.close()
-	return nil
+	gwRouter.Unsubscribe(alive)
+	if !ok || !mine {
+		w.close()
+		return nil
+	}
+	w.stash, w.stashF = nil, nil
+	return w
 }
 
-func (w *gwWorld) addr() *net.UDPAddr { return &net.UDPAddr{IP: net.IPv4(127, 0, 0, 1), Port: w.port} }
+// what gateway socket i sends
+func (w *gwWorld) send(i int, pkt []byte) { w.socks[i].Write(pkt) }
 
-// the forwarder's address as seen from gateway socket i
-func (w *gwWorld) addrFor(i int) *net.UDPAddr {
-	if w.hosts[i] == "::1" {
-		return &net.UDPAddr{IP: net.ParseIP("::1"), Port: w.port}
-	}
-	return w.addr()
-}
-
-// barrier: a PULL_DATA with a reserved EUI from a dedicated socket; when its PULL_ACK is back, everything the
-// single-threaded main loop did for earlier datagrams has been sent
+// Barriers. Each gateway socket sends, after the step's datagram, a PULL_DATA of its own (reserved EUI, protocol
+// version 0x7e, which no generated datagram uses). The forwarder's single-threaded main loop answers in order and its
+// one sender goroutine writes in order, so everything a socket receives before its barrier's PULL_ACK belongs to this
+// step, and once every socket has seen its PULL_ACK nothing of this step is still to come. The forwarder's Output() is
+// read here too (it is unbuffered: the main loop hands a packet over before it acknowledges the datagram that carried
+// it). No sleeps; a barrier that gets no answer within 300 ms is sent again.
 func (w *gwWorld) sync() bool {
 	w.btoken++
-	pkt := []byte{2, byte(w.btoken >> 8), byte(w.btoken), 2, 0xff, 0xff, 0xff, 0xff, 0xff, 0xff, 0xff, 0xfe}
-	t0 := time.Now()
-	defer func() { w.lastRTT = time.Since(t0) }()
-	w.barrier.WriteToUDP(pkt, w.addr())
-	buf := make([]byte, 64)
-	deadline := time.Now().Add(3 * time.Second)
-	for time.Now().Before(deadline) {
-		w.barrier.SetReadDeadline(time.Now().Add(200 * time.Millisecond))
-		n, _, err := w.barrier.ReadFromUDP(buf)
-		if err == nil && n == 4 && buf[3] == 4 && buf[1] == byte(w.btoken>>8) && buf[2] == byte(w.btoken) {
-			return true
+	want := []byte{0x7e, byte(w.btoken >> 8), byte(w.btoken), 4}
+	pkt := []byte{0x7e, byte(w.btoken >> 8), byte(w.btoken), 2, 0xff, 0xff, 0xff, 0xff, 0xff, 0xff, 0xff, 0xfe}
+	for i := range w.socks {
+		w.send(i, pkt)
+	}
+	pending := len(w.socks)
+	done := make([]bool, len(w.socks))
+	deadline := time.After(5 * time.Second)
+	resend := time.After(300 * time.Millisecond)
+	take := func(i int, b []byte) {
+		if len(b) == 4 && b[0] == want[0] && b[1] == want[1] && b[2] == want[2] && b[3] == want[3] {
+			if !done[i] {
+				done[i] = true
+				pending--
+			}
+			return
 		}
-		if err != nil {
-			w.barrier.WriteToUDP(pkt, w.addr())
+		if len(b) == 4 && b[0] == 0x7e && b[3] == 4 {
+			return // the acknowledgement of an earlier, repeated barrier
+		}
+		w.stash = append(w.stash, fmt.Sprintf("%d:%s", i, renderDatagram(b)))
+	}
+	n := len(w.inbox)
+	for pending > 0 {
+		select {
+		case b := <-w.inbox[0]:
+			take(0, b)
+		case b := <-w.inbox[1%n]:
+			take(1%n, b)
+		case b := <-w.inbox[2%n]:
+			take(2%n, b)
+		case p := <-w.fwd.Output():
+			w.stashF = append(w.stashF, p)
+		case <-resend:
+			for i := range w.socks {
+				if !done[i] {
+					w.send(i, pkt)
+				}
+			}
+			resend = time.After(300 * time.Millisecond)
+		case <-deadline:
+			return false
 		}
 	}
-	return false
+	return true
 }
 
-// everything the sockets received, and everything handed to the pipeline, since the last call
+// everything the sockets received, and everything handed to the pipeline, up to the last barrier
 func (w *gwWorld) collect() ([]string, []server.GatewayPacket) {
-	// the barrier's acknowledgement is sent after everything else, but to another socket: give the
-	// kernel and the reader goroutines a moment (a mismatch is re-run by bin/check before it is believed)
-	grace := 4*time.Millisecond + 3*w.lastRTT // on a loaded machine the reader goroutines are late as well
-	if grace > 300*time.Millisecond {
-		grace = 300 * time.Millisecond
-	}
-	time.Sleep(grace)
-	w.mu.Lock()
-	got := w.rcvd
-	w.rcvd = nil
-	f := w.fwded
-	w.fwded = nil
-	w.mu.Unlock()
+	got, f := w.stash, w.stashF
+	w.stash, w.stashF = nil, nil
 	sort.Strings(got)
 	return got, f
 }
@@ -186,7 +207,6 @@ func (w *gwWorld) close() {
 	for _, c := range w.socks {
 		c.Close()
 	}
-	w.barrier.Close()
 	w.store.VerifCloseDB()
 	os.RemoveAll(w.tmpdir)
 }
@@ -361,7 +381,7 @@ func runGwHistory(rng *rand.Rand, w *Writer, suite string, malformed bool) {
 					en := rxEntry{tmst: rng.Uint32(), ch: uint8(rng.Intn(8)), datr: datrs[rng.Intn(len(datrs))], rssi: -50, lsnr: "7.25", data: randBytes(rng, 1+rng.Intn(20))}
 					pkt := append(header(2, tok, 0, e), []byte(`{"rxpk":[`+entryJSON(en)+`]}`)...)
 					w.Begin(suite + " datagram " + hx(pkt))
-					gw.socks[si].WriteToUDP(pkt, gw.addrFor(si))
+					gw.send(si, pkt)
 					step(fmt.Sprintf("G,%d,%s,valid,%d/%d/%d/%s/%d/%s/%s", si, hx(pkt), en.tmst, en.ch, en.rfch, en.datr, en.rssi, en.lsnr, hx(en.data)), false)
 					w.Count("gw.push_data.probe")
 				}
@@ -375,7 +395,7 @@ func runGwHistory(rng *rand.Rand, w *Writer, suite string, malformed bool) {
 				pkt = append(pkt, randBytes(rng, rng.Intn(5))...) // trailing bytes are ignored
 			}
 			w.Begin(suite + " datagram " + hx(pkt))
-			gw.socks[si].WriteToUDP(pkt, gw.addrFor(si))
+			gw.send(si, pkt)
 			step(fmt.Sprintf("G,%d,%s,-", si, hx(pkt)), false)
 			w.Count("gw.pull_data")
 		case r < 9: // PUSH_DATA with 0..4 entries
@@ -434,7 +454,7 @@ func runGwHistory(rng *rand.Rand, w *Writer, suite string, malformed bool) {
 			}
 			pkt := append(header(ver, tok, 0, e), []byte(body)...)
 			w.Begin(suite + " datagram " + hx(pkt))
-			gw.socks[si].WriteToUDP(pkt, gw.addrFor(si))
+			gw.send(si, pkt)
 			step(fmt.Sprintf("G,%d,%s,%s,%s", si, hx(pkt), cls, strings.Join(ents, ";")), opaque)
 			w.Count("gw.push_data." + cls)
 		case r < 10: // other / malformed datagrams
@@ -455,7 +475,7 @@ func runGwHistory(rng *rand.Rand, w *Writer, suite string, malformed bool) {
 				pkt = randBytes(rng, 200+rng.Intn(2000))
 			}
 			w.Begin(suite + " datagram " + hx(pkt))
-			gw.socks[si].WriteToUDP(pkt, gw.addrFor(si))
+			gw.send(si, pkt)
 			step(fmt.Sprintf("G,%d,%s,-", si, hx(pkt)), false)
 			w.Count("gw.other")
 		default: // a downlink handed to the forwarder
